@@ -301,19 +301,24 @@ class StmtMixin:
         return outs
 
     def eval_hint(self, node, st, hint):
-        if hint is not None and isinstance(node, ast.IfExp) and hint.key in self.coercions:
-            # `x if c else None` assigned to a slot of an abstract sort: coerce each branch
+        if hint is not None and isinstance(node, ast.IfExp) and (hint.key in self.coercions or (isinstance(hint, TList) and any(isinstance(b_, ast.List) for b_ in (node.body, node.orelse)))):
+            # `x if c else None` assigned to a slot of an abstract sort, or `[x] if c else list(y)` assigned to a typed list slot: coerce each branch
             c = self.truthy(self.eval(node.test, st), node)
             self.guards.append(c)
             try:
-                a = self.coerce(self.eval(node.body, st), hint, node)
+                a = self.coerce(self.eval_hint(node.body, st, hint), hint, node)
             finally:
                 self.guards.pop()
             self.guards.append(z3.Not(c))
             try:
-                b = self.coerce(self.eval(node.orelse, st), hint, node)
+                b = self.coerce(self.eval_hint(node.orelse, st, hint), hint, node)
             finally:
                 self.guards.pop()
+            if isinstance(hint, TList):
+                # name the chosen list: terms containing `ite` are rejected as E-matching patterns
+                R = z3.Const(fresh_name("chosen"), sort_of(hint))
+                self.fact(st, R == z3.If(c, a.t, b.t))
+                return Val(hint, R)
             return Val(hint, z3.If(c, a.t, b.t))
         if hint is not None:
             if isinstance(node, ast.List) and not node.elts:
